@@ -276,7 +276,8 @@ WRAPS = ['c', 'not', 'notnot', 'c-and-not', 'c-or-not', 'all-not', 'any-not']
 TABLE_VALUES = [0, 1, -1, 2, 0.0, -0.0, 1.0, -1.0, 0.5, math.nextafter(0.0, 1.0), math.nextafter(0.0, -1.0), math.nextafter(1.0, 2.0),
                 float('inf'), float('-inf'), float('nan'),
                 # complex numbers (a supported scalar type) are finite when both parts are; they are not ordered
-                0j, 1 + 2j, complex(0.0, float('inf')), complex(float('-inf'), 1.0), complex(float('nan'), 0.0), complex(1e308, -1e308)]
+                0j, 1 + 2j, complex(0.0, float('inf')), complex(float('-inf'), 1.0), complex(float('nan'), 0.0), complex(1e308, -1e308),
+                complex(1.5e308, 1.5e308), complex(-1.7e308, 1.7e308)]      # (both parts finite, the modulus is not representable)
 N_REAL = 15
 
 
